@@ -827,3 +827,95 @@ pub fn gen_non_lalr_template(rng: &mut Rng) -> Grammar {
     g.rules = rules;
     g
 }
+
+/// Render a token string with varied skip material (G-in (e)): spaces, tabs, line breaks of all
+/// three forms, non-ASCII whitespace, comments (if the grammar declares them), junk (if the
+/// INITIAL state allows unmatched text), leading and trailing material.
+pub fn render_rich(g: &Grammar, w: &[usize], rng: &mut Rng) -> String {
+    let st = &g.states[0];
+    let mut seps: Vec<String> = vec![];
+    if st.auto_ws {
+        for s in [" ", "  ", "\t", " \t ", "\u{a0}", "\u{2003}"] {
+            seps.push(s.to_string());
+        }
+    }
+    if st.auto_nl {
+        for s in ["\n", "\r\n", "\r", "\n\n", "\r\n\r\n"] {
+            seps.push(s.to_string());
+        }
+    }
+    if st.auto_ws && st.auto_nl {
+        for s in [" \n ", "\t\r\n\t", " \r "] {
+            seps.push(s.to_string());
+        }
+    }
+    for (lc, _) in &st.line_comments {
+        if st.auto_nl || true {
+            seps.push(format!(" {lc} comment \u{e9}\u{4e16} x\n"));
+            seps.push(format!("{lc}\r\n"));
+            seps.push(format!(" {lc} c\n{lc} d\n"));
+        }
+    }
+    for ((s, _), (e, _)) in &st.block_comments {
+        seps.push(format!(" {s} b \u{e9} {e} "));
+        seps.push(format!("{s}{e}"));
+        seps.push(format!(" {s} line1\nline2\r\n {e}\n"));
+    }
+    if st.allow_unmatched {
+        for s in [" # ", " \u{e9}\u{e9} ", "@", " ~~~ "] {
+            seps.push(s.to_string());
+        }
+    }
+    if seps.is_empty() {
+        seps.push(String::new());
+    }
+    let must_sep = st.auto_ws || st.auto_nl;
+    let mut s = String::new();
+    if rng.chance(1, 3) {
+        s.push_str(rng.pick(&seps[..]).as_str());
+    }
+    for (i, t) in w.iter().enumerate() {
+        if i > 0 {
+            if must_sep {
+                // first a guaranteed token separator, then maybe more material
+                let first: Vec<&String> = seps.iter().filter(|x| x.starts_with([' ', '\t', '\n', '\r'])).collect();
+                if first.is_empty() {
+                    s.push_str(rng.pick(&seps[..]).as_str());
+                } else {
+                    s.push_str(rng.pick(&first[..]).as_str());
+                }
+                if rng.chance(1, 3) {
+                    s.push_str(rng.pick(&seps[..]).as_str());
+                }
+            } else {
+                s.push_str(rng.pick(&seps[..]).as_str());
+            }
+        }
+        if *t < g.terms.len() {
+            s.push_str(rng.pick(&g.terms[*t].samples[..]).as_str());
+        } else {
+            s.push_str(FOREIGN[(*t - g.terms.len()) % FOREIGN.len()]);
+        }
+    }
+    if rng.chance(1, 2) {
+        s.push_str(rng.pick(&seps[..]).as_str());
+    }
+    s
+}
+
+/// decorate the INITIAL scanner state of a parser-level grammar with comment declarations etc.
+pub fn decorate_scanner(g: &mut Grammar, rng: &mut Rng) {
+    // comment delimiters must not collide with terminal texts of the Letters/Mixed pools
+    if rng.chance(1, 2) {
+        let q = *rng.pick(&[Quote::Raw, Quote::Legacy]);
+        g.states[0].line_comments.push(("//".into(), q));
+    }
+    if rng.chance(1, 2) {
+        let q = *rng.pick(&[Quote::Raw, Quote::Legacy]);
+        let pair = rng.pick(&[("/*", "*/"), ("{-", "-}"), ("<!--", "-->")]).clone();
+        g.states[0].block_comments.push(((pair.0.into(), q), (pair.1.into(), q)));
+    }
+    if rng.chance(1, 5) {
+        g.states[0].allow_unmatched = true;
+    }
+}
